@@ -782,8 +782,36 @@ fn int_to_float(c: &IntCase, ctx: &Ctx) -> Out {
         judge_int(&mut out, ctx, "UBig::to_f64", c, catch(|| obs64(u.to_f64())), &x);
         judge_try_float(&mut out, "f32::try_from(UBig)", F32, catch(|| f32::try_from(u.clone()).map(|f| f.to_bits() as u64)), &x, small32);
         judge_try_float(&mut out, "f64::try_from(UBig)", F64, catch(|| f64::try_from(u.clone()).map(|f| f.to_bits())), &x, small64);
+        trait_route(&mut out, "UBig", catch(|| (num_traits::ToPrimitive::to_f32(&u).map(f32::to_bits), num_traits::ToPrimitive::to_f64(&u).map(f64::to_bits), u.to_f32().value().to_bits(), u.to_f64().value().to_bits())));
+        int_route(&mut out, "UBig", &v, catch(|| (num_traits::ToPrimitive::to_i64(&u), num_traits::ToPrimitive::to_u64(&u), num_traits::ToPrimitive::to_i128(&u), num_traits::ToPrimitive::to_u128(&u))));
     }
+    // the conversion traits of num-traits (cargo feature) are another public route to the same
+    // conversions: the value judged above, wrapped in Some
+    trait_route(&mut out, "IBig", catch(|| (num_traits::ToPrimitive::to_f32(&i).map(f32::to_bits), num_traits::ToPrimitive::to_f64(&i).map(f64::to_bits), i.to_f32().value().to_bits(), i.to_f64().value().to_bits())));
+    int_route(&mut out, "IBig", &v, catch(|| (num_traits::ToPrimitive::to_i64(&i), num_traits::ToPrimitive::to_u64(&i), num_traits::ToPrimitive::to_i128(&i), num_traits::ToPrimitive::to_u128(&i))));
     out
+}
+
+fn trait_route(out: &mut Out, ty: &str, got: Result<(Option<u32>, Option<u64>, u32, u64), String>) {
+    match got {
+        Ok((t32, t64, i32_, i64_)) => {
+            out.check(t32 == Some(i32_), || format!("num_traits::ToPrimitive::to_f32 for {ty} = {t32:x?}, the inherent to_f32 gives {i32_:#x}"));
+            out.check(t64 == Some(i64_), || format!("num_traits::ToPrimitive::to_f64 for {ty} = {t64:x?}, the inherent to_f64 gives {i64_:#x}"));
+        }
+        Err(m) => out.fail(format!("num_traits::ToPrimitive float conversions for {ty} panicked: {}", normalise(&m))),
+    }
+}
+
+fn int_route(out: &mut Out, ty: &str, v: &BigInt, got: Result<(Option<i64>, Option<u64>, Option<i128>, Option<u128>), String>) {
+    use num_traits::ToPrimitive;
+    match got {
+        Ok((a, b, c, d)) => {
+            out.check(a == v.to_i64() && b == v.to_u64() && c == v.to_i128() && d == v.to_u128(), || {
+                format!("num_traits::ToPrimitive integer conversions for {ty} {}: to_i64 {a:?}, to_u64 {b:?}, to_i128 {c:?}, to_u128 {d:?}; want {:?}, {:?}, {:?}, {:?}", show_i(v), v.to_i64(), v.to_u64(), v.to_i128(), v.to_u128())
+            });
+        }
+        Err(m) => out.fail(format!("num_traits::ToPrimitive integer conversions for {ty} panicked: {}", normalise(&m))),
+    }
 }
 
 // =============================================================================================
@@ -2579,7 +2607,7 @@ macro_rules! mode_subs {
 fn main() {
     let mut ck = Check::new(
         "C06",
-        "From/TryFrom matrix {u8..u128, usize, i8..i128, isize, bool, f32, f64} x {UBig, IBig, FBig<R,B>, Repr<B>, RBig, Relaxed} in both directions (values: type MIN/MAX and +-1 around them, 0, -1, 2^k +- 1 for k in 7..128, random; floats: NaN, +-inf, +-0, subnormals, integers, k/2^j, borders of the integer range) judged by a representability predicate on the exact rational value (Ok => equal and round trip, representable => Ok, else Err); lossy conversions to_f32/to_f64 (UBig, IBig, RBig, Relaxed, FBig and Repr in bases 2, 3, 10, 16, six modes), to_f32_fast/to_f64_fast (documented one-bit bound), RBig::to_float (six-clause contract), to_int (FBig per mode, Repr/RBig truncation) and FloatEncoding::{decode, encode} judged against an exact IEEE rounding of the rational value: values (m + j/D)·2^q with m a p-bit pattern, q in every range class (normal, top binade, overflow, lowest normal binade, subnormal, below the quantum) and j/D in {0, 1/2, 1/2 +- 2^-k, 1/2 +- 1/(3·2^k), 1/4, 3/4, 2^-k, 1 - 2^-k, odd denominators}, integers ((m·2+r) << t) + sticky with the sticky bit at every distance below the round bit, decimal expansions of the dyadic boundary values +- 1 unit far below, base-native significands with exponents in each convert_base branch; encode over mantissa boundary sets x exponent classes (thorough: every i16 exponent; every f32 bit pattern for decode and encode∘decode). Non-trivial: the conversion crosses a type family or is inexact; distinct by case digest.",
+        "From/TryFrom matrix {u8..u128, usize, i8..i128, isize, bool, f32, f64} x {UBig, IBig, FBig<R,B>, Repr<B>, RBig, Relaxed} in both directions (values: type MIN/MAX and +-1 around them, 0, -1, 2^k +- 1 for k in 7..128, random; floats: NaN, +-inf, +-0, subnormals, integers, k/2^j, borders of the integer range) judged by a representability predicate on the exact rational value (Ok => equal and round trip, representable => Ok, else Err); lossy conversions to_f32/to_f64 (UBig, IBig — also through num_traits::ToPrimitive —, RBig, Relaxed, FBig and Repr in bases 2, 3, 10, 16, six modes), to_f32_fast/to_f64_fast (documented one-bit bound), RBig::to_float (six-clause contract), to_int (FBig per mode, Repr/RBig truncation) and FloatEncoding::{decode, encode} judged against an exact IEEE rounding of the rational value: values (m + j/D)·2^q with m a p-bit pattern, q in every range class (normal, top binade, overflow, lowest normal binade, subnormal, below the quantum) and j/D in {0, 1/2, 1/2 +- 2^-k, 1/2 +- 1/(3·2^k), 1/4, 3/4, 2^-k, 1 - 2^-k, odd denominators}, integers ((m·2+r) << t) + sticky with the sticky bit at every distance below the round bit, decimal expansions of the dyadic boundary values +- 1 unit far below, base-native significands with exponents in each convert_base branch; encode over mantissa boundary sets x exponent classes (thorough: every i16 exponent; every f32 bit pattern for decode and encode∘decode). Non-trivial: the conversion crosses a type family or is inexact; distinct by case digest.",
     );
     ck.assume("IEEE oracle `ieee_round` (exact rationals) — validated per run against hardware `as` casts of <= 128-bit integers, std's f32/f64 decimal parser and an independent integer-only RNE model (subs selftest)");
     ck.assume("hardware f64 multiplication by a power of two is exact (f32 exhaustive sweep)");
